@@ -9,9 +9,10 @@ import (
 )
 
 // disp <proto>,<net>,<v6up>,<fsm> <payload>
-//   net:  PhaseFn reports PhaseNetwork (1) or PhaseAuthenticate (0); 2 = PhaseOpen, 3 = PhaseFn nil
-//   fsm:  0 no FSMs installed, 1 fresh FSMs (Req-Sent), 2 FSMs restored to Opened
-//   v6up: IPv6CP restored to Opened (only meaningful with fsm != 0)
+//
+//	net:  PhaseFn reports PhaseNetwork (1) or PhaseAuthenticate (0); 2 = PhaseOpen, 3 = PhaseFn nil
+//	fsm:  0 no FSMs installed, 1 fresh FSMs (Req-Sent), 2 FSMs restored to Opened
+//	v6up: IPv6CP restored to Opened (only meaningful with fsm != 0)
 func c07Disp(entry string, n []uint64, f []string) string {
 	if entry != "disp" {
 		return "badline"
@@ -27,8 +28,8 @@ func c07Disp(entry string, n []uint64, f []string) string {
 			log = append(log, "7", c07U(uint64(code)), c07U(uint64(id)), c07TB(data))
 			return nil
 		},
-		OnEchoReq: func(id uint8, data []byte) { log = append(log, "2", c07U(uint64(id)), c07TB(data)) },
-		OnEchoRep: func(id uint8, data []byte) { log = append(log, "3", c07U(uint64(id)), c07TB(data)) },
+		OnEchoReq:        func(id uint8, data []byte) { log = append(log, "2", c07U(uint64(id)), c07TB(data)) },
+		OnEchoRep:        func(id uint8, data []byte) { log = append(log, "3", c07U(uint64(id)), c07TB(data)) },
 		OnProtocolReject: func(p uint16) { log = append(log, "4", c07U(uint64(p))) },
 		SendProtocolReject: func(p uint16, pl []byte) {
 			log = append(log, "10", c07U(uint64(p)), c07TB(pl))
